@@ -32,9 +32,10 @@ Next ==
            e   == rec.evs[l]
            r   == Full(rec, e.r)
            c   == Check(Cur, e.ev, r)
+           po  == Post(Cur, e.ev, r)
        IN IF c = "OK"
-          THEN /\ objs' = Post(Cur, e.ev, r).objs
-               /\ dict' = Post(Cur, e.ev, r).dict
+          THEN /\ objs' = po.objs
+               /\ dict' = po.dict
                /\ last' = [ev |-> e.ev, chk |-> c, dev |-> ""]
                /\ l' = l + 1
                /\ drift' = drift + (IF Drift(Cur, e.ev, r) THEN 1 ELSE 0)
